@@ -99,7 +99,7 @@ func c17(ctx *core.Ctx) {
 	quietLogs()
 	ctx.Rule("tables on the fragment both matching engines support (nested literal roots, literal and {v} segments, Consumes/Produces, no conditions), both routers. For each URL u: S(u) = methods in {GET,POST,PUT,DELETE,PATCH,HEAD,LOCK,UNLOCK,FIND,PROPFIND,GE} whose probe on a filter-less twin is not 404/405. Oracle: every 405's Allow set == S(u) (also for OPTIONS and an unknown method); with OPTIONSFilter installed OPTIONS u gives Allow == Access-Control-Allow-Methods == S(u), runs no route function, and every other probe equals the twin's answer. Non-trivial = a URL with non-empty S(u); distinct by (router, |S(u)|, number of matching roots, trailing slash).")
 	ctx.Assume("OPTIONS itself is outside the compared universe (removed from both sides): the filter answers it by construction", "every 3rd table has explicit OPTIONS routes; every 3rd table has routes added/removed on registered WebServices between three probe passes")
-	tables := ctx.N(1800, 150000)
+	tables := ctx.N(1800, 80000)
 	perTable := ctx.N(25, 50)
 	if !ctx.Quick() {
 		perTable = 50
